@@ -211,6 +211,7 @@ theorem DInv.run {K : Kern α} {c : StageCfg} {s0 : StageSt} {x : DStage α} {hi
           simp only [unitSem, hk]
           rw [habs j, Nat.add_mul_div_left _ _ hden]
           have := (Nat.div_lt_iff_lt_mul hden).mpr (hbelow j hj)
+          generalize (x.st.clk + j * c.step) / c.den = qq at this ⊢
           omega
       · simp only [DStage.run, hcfg]; exact hwf'
       · rw [UnitSem.G_add]
@@ -227,8 +228,9 @@ theorem DInv.run {K : Kern α} {c : StageCfg} {s0 : StageSt} {x : DStage α} {hi
     simp only [hk] at hctl hwf
     obtain ⟨hL, hT, hlenT, hclk, hbl, hisz, hok⟩ := hwf
     have hfn : stageFn c x.st = dftFn c x.st := by unfold stageFn; simp [hk]
-    injection hctl with hc1 hc23
-    injection hc23 with hc2 hc3
+    have hc1 : cons = (dctl c s0 m).1 := congrArg Prod.fst hctl
+    have hc2 : x.st.clk = (dctl c s0 m).2.1 := congrArg (fun p => p.2.1) hctl
+    have hc3 : x.st.remM = (dctl c s0 m).2.2 := congrArg (fun p => p.2.2) hctl
     by_cases hf : x.st.clk + c.L * x.st.occ ≥ c.dftLen
     · obtain ⟨q1, q2⟩ := dft_quot c x.st hL hclk hbl hf
       generalize hq : (c.dftLen - (c.numTaps - 1) + c.L - 1 - x.st.clk) / c.L = quot at *
@@ -240,14 +242,43 @@ theorem DInv.run {K : Kern α} {c : StageCfg} {s0 : StageSt} {x : DStage α} {hi
       -- the block fires only when `input_size` frames are there
       have hiszle : x.st.isz ≤ x.st.occ := by
         rw [hisz]
-        apply Nat.div_le_of_le_mul
-        have : c.dftLen - x.st.clk + c.L - 1 ≤ c.L * x.st.occ + c.L - 1 := by omega
-        calc c.dftLen - x.st.clk + c.L - 1 ≤ c.L * x.st.occ + c.L - 1 := this
-          _ ≤ c.L * x.st.occ + c.L - 1 := Nat.le_refl _
-          _ ≤ c.L * x.st.occ + c.L := Nat.sub_le _ _
-          _ = c.L * (x.st.occ + 1) := by rw [Nat.mul_add, Nat.mul_one]
-          _ ≤ c.L * (x.st.occ + 1) := Nat.le_refl _
-      sorry
-    · sorry
+        apply Nat.lt_succ_iff.mp
+        apply (Nat.div_lt_iff_lt_mul hL).mpr
+        rw [Nat.succ_mul, Nat.mul_comm x.st.occ]
+        omega
+      have hlenm : ((unitSem K c s0).len m) = x.st.isz := by
+        simp only [unitSem, hk, ← hc2]; exact hisz.symm
+      have hposm : ((unitSem K c s0).pos m) = cons := by
+        simp only [unitSem, hk, ← hc1]
+      refine ⟨m + 1, by omega, ⟨hcfg, ?_, ⟨cons + quot, ?_, ?_, ?_⟩, ?_, ?_⟩, ?_⟩
+      · simp only [DStage.run, hcfg, hfn, e, List.length_drop]; omega
+      · simp only [DStage.run, hcfg, hfn, e, hfifo, List.drop_drop]
+        congr 1; omega
+      · omega
+      · unfold ctlRel; simp only [hk, DStage.run, hcfg, hfn, e]; exact hctl'.symm
+      · intro u hu
+        by_cases hu' : u < m
+        · exact h.stable u hu'
+        · have : u = m := by omega
+          subst this
+          rw [hlenm, hposm]; omega
+      · simp only [DStage.run, hcfg]; exact hwf'
+      · show (unitSem K c s0).G m hist ++ (unitSem K c s0).out m ((unitSem K c s0).window m hist) = _
+        congr 1
+        simp only [DStage.run, hcfg, hfn, e]
+        simp only [UnitSem.window, hlenm, hposm]
+        simp only [unitSem, hk, ← hc2, ← hc3]
+        apply List.map_congr_left
+        intro j _
+        simp only [DStage.outAt, readSpec, hcfg, hk, hfifo, List.drop_zero]
+    · -- not enough input for a block: only `input_size` is recomputed (to the value it already has)
+      have e : dftFn c x.st = (x.st, 0) := by
+        simp only [dftFn, hf, if_false, ← hisz]
+      refine ⟨m, Nat.le_refl _, ⟨hcfg, ?_, ⟨cons, ?_, hcons, ?_⟩, h.stable, ?_⟩, ?_⟩
+      · simp [DStage.run, hcfg, hfn, e, hocc]
+      · simp [DStage.run, hcfg, hfn, e, hfifo]
+      · unfold ctlRel; simp only [hk, DStage.run, hcfg, hfn, e, hc1, hc2, hc3]
+      · simp only [DStage.run, hcfg, hfn, e]; unfold StageWF; simp only [hk]; exact ⟨hL, hT, hlenT, hclk, hbl, hisz, hok⟩
+      · simp [DStage.run, hcfg, hfn, e]
 
 end Soxr.Cr
